@@ -1,4 +1,5 @@
 from abc import ABC, abstractmethod
+import numpy as np
 
 
 class BaseSolve(ABC):
@@ -71,6 +72,7 @@ class MarginalRayHeightSolve(BaseSolve):
         ya, ua = self.optic.paraxial.marginal_ray()
         offset = (self.height - ya[self.surface_idx]) / ua[self.surface_idx]
 
+        offset = float(np.ravel(offset)[0])
         # shift current surface and all subsequent surfaces
         for surface in self.optic.surface_group.surfaces[self.surface_idx:]:
             surface.geometry.cs.z += offset
